@@ -316,6 +316,10 @@ def run_misuse(ctx):
     flat = [x for pr in pairs for x in pr]
     res = run_scenarios(ctx, flat, {"C16", "PANIC"}, "misuse")
     pairs_equal(ctx, pairs, res, "misuse", label="C16", what="misuse calls inserted")
+    pairs = F.fam_misuse_disc_again(ctx.rng, 200 if ctx.thorough else 40)
+    flat = [x for pr in pairs for x in pr]
+    res = run_scenarios(ctx, flat, {"C16", "PANIC"}, "misuse_disc_again")
+    pairs_equal(ctx, pairs, res, "misuse_disc_again", label="C16", what="repeated disconnect_player calls inserted")
     # advancing before synchronisation: handshakes under loss/dup/reorder with late spectators; every accepted
     # advance_frame is checked against the endpoints' handshake states (hook accessor)
     run_scenarios(ctx, F.fam_handshake(ctx.rng, 400 if ctx.thorough else 60, tag="hs16"), {"C16", "PANIC"}, "handshake")
